@@ -11,6 +11,11 @@ import Ptn.C02.Progress
 import Ptn.C02.Value
 import Ptn.C02.SimHistory
 import Ptn.C02.SimDemo
+import Ptn.C02.SimComposite
+import Ptn.C02.SimCompositeTdvp
+import Ptn.C02.SimCompositeTrunc
+import Ptn.C02.SimCompositeDemo
+import Ptn.C02.SimCompositeExists
 /-! Property theorems for C02.  Only property theorems and non-vacuity examples live here (part 1,
 the Node machine, is in `NodeProps.lean`, imported here); helper lemmas are in `Lemmas.lean`,
 `NodeSpec.lean`, `TTNLemmas.lean`, `ContractSpec.lean`, ….
@@ -697,5 +702,101 @@ example : ∃ t' g' v', SimRun SimDemo.dim SimDemo.e t0 SimDemo.g v0
   exact ⟨t', g', v', hr, w, vw, s, val⟩
 
 end SimDemoExamples
+
+/-! ### Part 9 — the composite edits at the value level (`SimComposite.lean`, `SimCompositeTdvp.lean`,
+`SimCompositeTrunc.lean`): non-vacuity of `centre_move_preserves_value`, `contract_split_preserves_value`,
+`link_update_value`, `two_site_update_value`, `truncate_node_value`, `tdvp_step_preserves_value_structure`,
+`moves_preserve_value`.  The instances (`SimCompositeDemo.lean`) live on the demo network `1 — 2` of part 8. -/
+
+section SimCompositeExamples
+open Ptn.Ein Ptn.C03 SimDemo
+
+/-- `centre_move_preserves_value`: the premises hold for the move `2 → 1` (exact rank-3 factorisation `factm` of the
+tensor of node 2), so the conclusion holds: the composite edit returns the final state and the value is that of `v0` -/
+example : ∃ g' v', SimRun SimDemo.dim SimDemo.e t0 SimDemo.g v0 [.split 2 qS rS 2 7 3, .contract 1 7 1] tm2 g' v' ∧
+    t0.centreMove 2 1 7 3 = some tm2 ∧ v'.WF ∧ ∀ σ, v'.value SimDemo.dim σ = v0.value SimDemo.dim σ := by
+  obtain ⟨g', v', hr⟩ := simrun_centre_move
+  obtain ⟨a1, _, _, a4, _, a6⟩ :=
+    centre_move_preserves_value SimDemo.dim SimDemo.e t0_wf.1 t0_wf.2 v0_wf rsim0 t0_N2 canon2 hr
+  exact ⟨g', v', hr, a1, a4, a6⟩
+
+/-- `contract_split_preserves_value`: `contract_and_split_with_parent(2, 1)` with the exact factorisation `fact2c` -/
+example : ∃ g' v', SimRun SimDemo.dim SimDemo.e t0 SimDemo.g v0 [.contract 2 1 3, .split 3 uS wS 2 1 3] t2c g' v' ∧
+    t0.contractSplit 2 1 3 3 = some t2c ∧ v'.WF ∧ ∀ σ, v'.value SimDemo.dim σ = v0.value SimDemo.dim σ := by
+  obtain ⟨g', v', hr⟩ := simrun_contract_split
+  obtain ⟨a1, _, _, a4, _, a6⟩ :=
+    contract_split_preserves_value SimDemo.dim SimDemo.e t0_wf.1 t0_wf.2 v0_wf rsim0 lbc21 hr
+  exact ⟨g', v', hr, a1, a4, a6⟩
+
+/-- `link_update_value`: link update `2 → 1`, the link tensor multiplied by 7 (a genuine change: `X7 ≠` the old
+tensor); the value after is the value of the intermediate network with the link tensor replaced -/
+example : ∃ (t' : TTN) (v' : VNet Int), t0.linkUpdate 2 1 7 3 = some t' ∧ v'.WF ∧
+    (∀ σ, vm1.value SimDemo.dim σ = v0.value SimDemo.dim σ) ∧
+    (∀ σ, v'.value SimDemo.dim σ = (setTens vm1 7 X7).value SimDemo.dim σ) := by
+  obtain ⟨t', g', v', hr2⟩ := simrun_link_2
+  obtain ⟨a1, _, _, a4, _, _, _, a8, a9, _⟩ :=
+    link_update_value SimDemo.dim SimDemo.e t0_wf.1 t0_wf.2 v0_wf rsim0 t0_N2 tdvp2 simrun_link_1 X7_reads hr2
+  exact ⟨t', v', a1, a4, a8, a9⟩
+
+/-- `two_site_update_value`: two-site update of `(2, 1)`, the two-site tensor doubled, split with the exact
+factorisation `fact2a` of the doubled tensor -/
+example : ∃ v' : VNet Int, t0.twoSiteUpdate 2 1 3 3 = some t2c ∧ v'.WF ∧
+    (∀ σ, v1.value SimDemo.dim σ = v0.value SimDemo.dim σ) ∧
+    (∀ σ, v'.value SimDemo.dim σ = (setTens v1 3 X2).value SimDemo.dim σ) := by
+  obtain ⟨g', v', hr2⟩ := simrun_two_site_2
+  obtain ⟨a1, _, _, a4, _, _, _, a8, a9, _⟩ :=
+    two_site_update_value SimDemo.dim SimDemo.e t0_wf.1 t0_wf.2 v0_wf rsim0 lbc21 simrun_two_site_1 X2_reads hr2
+  exact ⟨v', a1, a4, a8, a9⟩
+
+/-- `truncate_node_value`: identity inserted on the bond `2 — 1`, replaced by the rank-2 projector `Pi2`, split into
+the projector pair (`facti`); the value after is the value of the network with `Pi2` on the bond -/
+example : ∃ v' : VNet Int, t0.insertProjectors 1 2 tids 3 = some ti2 ∧ v'.WF ∧
+    (∀ σ, vi1.value SimDemo.dim σ = v0.value SimDemo.dim σ) ∧
+    vi1.tens 7 = (fun ρ => if ρ v0.next = ρ (v0.next + 1) then 1 else 0) ∧
+    (∀ σ, v'.value SimDemo.dim σ = (setTens vi1 7 Pi2).value SimDemo.dim σ) := by
+  obtain ⟨g', v', hr2⟩ := simrun_trunc_2
+  obtain ⟨a1, _, _, a4, _, _, a7, a8, a9, _⟩ :=
+    truncate_node_value SimDemo.dim SimDemo.e t0_wf.1 t0_wf.2 v0_wf rsim0 simrun_trunc_1 Pi2_reads hr2
+  exact ⟨v', a1, a4, a7, a8, a9⟩
+
+/-- `tdvp_step_preserves_value_structure` / `moves_preserve_value`: the event sequence consisting of one
+`contract_and_split_with_parent(2, 1)` is simulated; it is a `TdvpRun`, no replacement is recorded, the value is constant -/
+example : ∃ g' v' us, SimTdvpRun SimDemo.dim SimDemo.e t0 SimDemo.g v0 [.contractSplit 2 1 3 3] t2c g' v' us ∧
+    TdvpRun t0 [.contractSplit 2 1 3 3] t2c ∧ UpdTrace SimDemo.dim v0 us v' ∧ us = [] := by
+  obtain ⟨g', v', hr⟩ := simrun_contract_split
+  have hrun : SimTdvpRun SimDemo.dim SimDemo.e t0 SimDemo.g v0 [.contractSplit 2 1 3 3] t2c g' v' [] :=
+    .cons (u := none) (show t0.N 3 = none from rfl) (.contractSplit lbc21 hr) (.nil _ _ _)
+  obtain ⟨a1, _, _, _, _, a6, _⟩ :=
+    tdvp_step_preserves_value_structure SimDemo.dim SimDemo.e t0_wf.1 t0_wf.2 v0_wf rsim0 hrun
+  exact ⟨g', v', [], hrun, a1, a6, rfl⟩
+
+/-- an event sequence WITH an update: the two-site update of `(2, 1)` with the two-site tensor doubled records exactly
+that replacement -/
+example : ∃ g' v', SimTdvpRun SimDemo.dim SimDemo.e t0 SimDemo.g v0 [.twoSite 2 1 3 3] t2c g' v' [(v1, 3, X2)] ∧
+    UpdTrace SimDemo.dim v0 [(v1, 3, X2)] v' := by
+  obtain ⟨g', v', hr2⟩ := simrun_two_site_2
+  have hrun : SimTdvpRun SimDemo.dim SimDemo.e t0 SimDemo.g v0 [.twoSite 2 1 3 3] t2c g' v' [(v1, 3, X2)] :=
+    .cons (u := some (v1, 3, X2)) (show t0.N 3 = none from rfl)
+      (.twoSite lbc21 simrun_two_site_1 X2_reads hr2) (.nil _ _ _)
+  obtain ⟨_, _, _, _, _, a6, _⟩ :=
+    tdvp_step_preserves_value_structure SimDemo.dim SimDemo.e t0_wf.1 t0_wf.2 v0_wf rsim0 hrun
+  exact ⟨g', v', hrun, a6⟩
+
+/-- `centre_move_simrun_exists`: its premises hold on the demo instance (`7` unused, the move `2 → 1` succeeds, the
+factorisation `factm` is exact for the state the split produces) -/
+example : t0.N 7 = none ∧ t0.centreMove 2 1 7 3 = some tm2 ∧
+    ∀ node q r t1, t0.N 2 = some node → TTN.canonSpecs node 1 = some (q, r) →
+      t0.splitNodes 2 q r 2 7 3 = some t1 → SimDemo.dim v0.next = 3 ∧ SimDemo.dim (v0.next + 1) = 3 ∧
+      Nonempty (SplitFact SimDemo.dim (v0.tens 2) (splitOutLegs SimDemo.e SimDemo.g t1 2 2 7)
+        (splitInLegs SimDemo.e SimDemo.g t1 2 2 7) v0.next (v0.next + 1)) := by
+  refine ⟨rfl, rfl, ?_⟩
+  intro node q r t1 hn hsp hs1
+  rw [t0_N2] at hn; cases hn
+  rw [canon2] at hsp; cases hsp
+  have : t0.splitNodes 2 qS rS 2 7 3 = some tm1 := rfl
+  rw [this] at hs1; cases hs1
+  exact ⟨rfl, rfl, ⟨factm⟩⟩
+
+end SimCompositeExamples
 
 end Ptn.C02
